@@ -87,18 +87,33 @@ def build_cases(scratch, rnd, tier):
     for c in cases:
         c.update(gzip=False, rsize=0, qsize=0, qat=0)
         c.setdefault("slowopen", False)
+        # the failing status's text: mostly the awkward one; every status shape (with / without details) also without any
+        # message and with a plain one
+        c["msg"] = ""
+        if c["failAt"] != "never" or c["failK"] != 0:
+            c["msg"] = rnd.choice(["", "", "empty", "ascii"])
+    extra = []
+    for shape in ("unary", "sstream", "cstream", "bidi"):
+        for det in (0, 1, 2):
+            for msg in ("empty", "ascii"):
+                for fail_at, n, rj in (("before", 1, 1), ("afterReplies", 1, 1)):
+                    if shape == "unary" and fail_at != "before":
+                        continue
+                    extra.append(dict(n=n, readN=(1 if shape in ("unary", "sstream") else 99), replyJ=rj, failAt=fail_at, mode="batch", failK=0, shape=shape,
+                                      code=rnd.choice([3, 5, 9, 13]), det=det, wait=False, gzip=False, rsize=0, qsize=0, qat=0, slowopen=False, msg=msg))
+    cases += extra
     # a compressing client: replies of every small size (the gzip form of a short or random message is larger than the
     # message, so buffers regrow), unary and streamed
     sizes = list(range(1, 140, 3)) + [250, 255, 256, 257, 500, 510, 1000, 1020, 4090]
     for rs in (sizes if tier != "quick" else rnd.sample(sizes, 16) + [31, 45, 59, 100, 120]):
         for shape, n, rj in (("unary", 1, 1), ("sstream", 1, 3), ("bidi", 2, 2)):
             cases.append(dict(n=n, readN=99, replyJ=rj, failAt="never", mode="batch", failK=0, shape=shape, code=0, det=0, wait=False,
-                              gzip=True, rsize=rs, qsize=0, qat=0, slowopen=False))
+                              gzip=True, rsize=rs, qsize=0, qat=0, slowopen=False, msg=""))
     # a request of exactly the default receive limit (4 MiB), and one byte less: first and second message
     for qs in (4194303, 4194304):
         for shape, n, qat in (("unary", 1, 1), ("cstream", 1, 1), ("cstream", 3, 2)):
             cases.append(dict(n=n, readN=99, replyJ=1, failAt="never", mode="batch", failK=0, shape=shape, code=0, det=0, wait=False,
-                              gzip=False, rsize=0, qsize=qs, qat=qat, slowopen=False))
+                              gzip=False, rsize=0, qsize=qs, qat=qat, slowopen=False, msg=""))
     for i, c in enumerate(cases):
         c["id"] = i + 1
     return cases
@@ -162,17 +177,19 @@ def status_violations(prop, tier, scratch, harness, seed):
         if ev["crash"] or d["hang"] or d["bcalls"] != 1:
             continue
         for front, v in (("grpc", ev["proxied"]), ("http", ev["http"] if ev["hashttp"] else None)):
-            if v is None or v["hang"] or v["bcalls"] != 1:
+            if v is None or v["bcalls"] != 1:
                 continue      # (zero-message scripts never reach the backend through the front: C10's known finding)
-            if (v["code"], v["msgequal"], v["detequal"]) != (d["code"], d["msgequal"], d["detequal"]):
-                key = ("StatusFidelityProxied", front, s["shape"], d["code"] == 1)
+            # (a backend that has returned its status and a client that never gets it: the status is lost altogether)
+            if v["hang"] or (v["code"], v["msgequal"], v["detequal"]) != (d["code"], d["msgequal"], d["detequal"]):
+                key = ("StatusFidelityProxied", front, s["shape"], d["code"] == 1, v["hang"])
                 if key in out:
                     out[key]["more"] += 1
                     continue
                 out[key] = dict(property=prop, formula="StatusFidelity", seed=seed, cases=[by_id[s["id"]]], observed=ev, more=0, replay_driver="proxy",
                                 signature=dict(module="Proxy", formula="StatusFidelityProxied", shape=s["shape"], front=front),
-                                what="StatusFidelity on the proxy path: %s %s backend ends with code %d (%s): direct client sees code %d message-equal %s details-equal %s, %s front sees code %d message-equal %s details-equal %s" % (
-                                    s["shape"], s["mode"], s["code"], s["failAt"], d["code"], d["msgequal"], d["detequal"], front, v["code"], v["msgequal"], v["detequal"]))
+                                what="StatusFidelity on the proxy path: %s %s backend ends with code %d (%s): direct client sees code %d message-equal %s details-equal %s, %s front %s" % (
+                                    s["shape"], s["mode"], s["code"], s["failAt"], d["code"], d["msgequal"], d["detequal"], front,
+                                    "never gets a status (gave up after 4 s)" if v["hang"] else "sees code %d message-equal %s details-equal %s" % (v["code"], v["msgequal"], v["detequal"])))
     return out, n
 
 
